@@ -78,7 +78,8 @@ def gen_value(rng, depth):
         return ["decimal", rng.choice(["0", "1.50", "-3.14159", "1E+30", "NaN", "Infinity", "0.000000001"])]
     if r < 0.7:
         return ["list", [gen_value(rng, depth - 1) for _ in range(rng.choice([0, 0, 1, 2, 3, 4]))]]
-    level = rng.randint(0, 5)          # 4 = IterNode (a Node1 that is iterable), 5 = StaticNode (static _from_json)
+    # 4 = IterNode (a Node1 that is iterable), 5 = StaticNode (static _from_json), 6 = a class defined inside another class
+    level = rng.randint(0, 6)
     node = ["node", level, rng.choice(STRINGS), gen_value(rng, depth - 1),
             [gen_value(rng, depth - 2) for _ in range(rng.choice([0, 0, 1, 2]))]]
     if level in (2, 3):
@@ -93,7 +94,9 @@ def gen(rng, tier, ctx):
 
 
 def witnesses():
-    return {}
+    return {
+        "nested-class-tag-not-qualified": {"value": ["list", [["node", 6, "n", ["none"], []]]]},
+    }
 
 
 def materialise(v, jm):
@@ -129,7 +132,7 @@ def materialise(v, jm):
         return getattr(jm, v[1])(*v[2:2 + n])
     if k == "list":
         return [materialise(x, jm) for x in v[1]]
-    cls = [jm.Node0, jm.Node1, jm.Node2, jm.Node3, jm.IterNode, jm.StaticNode][v[1]]
+    cls = [jm.Node0, jm.Node1, jm.Node2, jm.Node3, jm.IterNode, jm.StaticNode, jm.Outer.NestedNode][v[1]]
     kw = {"name": v[2], "payload": materialise(v[3], jm), "friends": [materialise(x, jm) for x in v[4]]}
     if v[1] in (2, 3):
         kw["level"] = v[5]
@@ -214,7 +217,7 @@ def check_tags(value, ser, path, problems, C):
             check_tags(v, s, f"{path}[{i}]", problems, C)
     elif dataclasses.is_dataclass(value) or isinstance(value, (uuid.UUID, decimal.Decimal, fractions.Fraction, jm_Money(), collections.deque) + jm_builtin_derived()):
         C["tags_checked"] += 1
-        want = type(value).__module__ + "." + type(value).__name__
+        want = type(value).__module__ + "." + type(value).__qualname__
         if not isinstance(ser, dict) or ser.get("__json_type__") != want:
             problems.append(f"{path}: tag {ser.get('__json_type__') if isinstance(ser, dict) else ser!r} != {want}")
             return
